@@ -53,6 +53,7 @@ def dispatch (l : Line) : List Verdict :=
   | "sched" => handleSched l
   | "lockwait" => handleLockWait l
   | "mixedcfg" => handleMixedCfg l
+  | "lease" => handleLease l
   | "retry" => handleRetry l
   | "fault" => handleFault l
   | "faultdry" => [Verdict.ok]
